@@ -283,16 +283,31 @@ func (r *Run) Finish() {
 func Eval[C any](r *Run, t interface {
 	Fatalf(string, ...interface{})
 }, c C, nontrivial bool, v *Violation) {
+	sample := func() interface{} {
+		if s, ok := interface{}(c).(Sampler); ok {
+			return s.Sample()
+		}
+		if s, ok := interface{}(&c).(Sampler); ok {
+			return s.Sample()
+		}
+		return c
+	}
 	if v != nil {
 		if r.Known(v) {
-			r.Count(nontrivial, c, func() interface{} { return c })
+			r.Count(nontrivial, c, sample)
 			return
 		}
 		r.Fail(c, v)
 		t.Fatalf("VIOLATION %s", v.String())
 		return
 	}
-	r.Count(nontrivial, c, func() interface{} { return c })
+	r.Count(nontrivial, c, sample)
+}
+
+// Sampler lets a case type render itself compactly for the evidence file (the replay file always
+// holds the full case).
+type Sampler interface {
+	Sample() interface{}
 }
 
 // guard converts a panic in the code under test into a violation.
@@ -425,7 +440,6 @@ func inDir(dir string, f func()) error {
 	f()
 	return nil
 }
-
 
 // ---- exported aliases for the in-package cmd/hidi checks (overlay/cmdhidi_common_test.go) ----
 
